@@ -114,87 +114,108 @@ func isHandlerInvoke(i ssa.Instruction, name string) bool {
 func ruleC19ProtocolState(c *Ctx) {
 	u := c.U2
 	c.rule("C19.protocol-state", "handleRequest: handler.Encrypt/Decrypt only where s.handler is known non-nil, the nil edge returns an error response; a handler is created (and GetSession called) only where s.handler is known nil, the non-nil edge returns an error response", 5)
-	f := u.Method(pkgServer, "streamer", "handleRequest")
-	if f == nil {
+	root := u.Method(pkgServer, "streamer", "handleRequest")
+	if root == nil {
 		c.unresolved("handleRequest", "(*streamer).handleRequest")
 		return
 	}
-	c.FuncsAnalysed[shortName(f)] = true
-	handlerPath := "P:" + f.Params[0].Name() + ".handler"
-	isErrResp := func(v ssa.Value) bool {
-		v = resolve(v)
-		if ld, ok := v.(*ssa.UnOp); ok {
-			if g, isG := ld.X.(*ssa.Global); isG {
-				return errorResponseGlobal(u, g)
-			}
+	// handleRequest and the streamer methods it delegates to (a branch may live in a helper)
+	var fns []*ssa.Function
+	seenFn := map[*ssa.Function]bool{}
+	var collect func(g *ssa.Function, depth int)
+	collect = func(g *ssa.Function, depth int) {
+		if g == nil || g.Blocks == nil || seenFn[g] || depth > 2 {
+			return
 		}
-		if cv, ok := v.(*ssa.Call); ok {
-			if g := staticCallee(cv); g != nil && g.Name() == "newErrorResponse" {
-				return true
+		seenFn[g] = true
+		fns = append(fns, g)
+		allInstrs(g, func(i ssa.Instruction) {
+			if h := staticCallee(i); h != nil && h.Signature.Recv() != nil && typeIsNamed(h.Signature.Recv().Type(), pkgServer, "streamer") && h.Name() != "NewHandler" {
+				collect(h, depth+1)
 			}
-		}
-		return false
+		})
 	}
-	for _, meth := range []string{"Encrypt", "Decrypt"} {
+	collect(root, 0)
+	counts := map[string]int{}
+	for _, f := range fns {
+		c.FuncsAnalysed[shortName(f)] = true
+		handlerPath := "P:" + f.Params[0].Name() + ".handler"
+		isErrResp := func(v ssa.Value) bool {
+			v = resolve(v)
+			if ld, ok := v.(*ssa.UnOp); ok {
+				if g, isG := ld.X.(*ssa.Global); isG {
+					return errorResponseGlobal(u, g)
+				}
+			}
+			if cv, ok := v.(*ssa.Call); ok {
+				if g := staticCallee(cv); g != nil && g.Name() == "newErrorResponse" {
+					return true
+				}
+			}
+			return false
+		}
+		for _, meth := range []string{"Encrypt", "Decrypt"} {
+			n := 0
+			allInstrs(f, func(i ssa.Instruction) {
+				if !isHandlerInvoke(i, meth) {
+					return
+				}
+				n++
+				cc := callOf(i)
+				ok := accessPath(cc.Value) == handlerPath && knownNonNilPath(handlerPath, i.Block())
+				c.check(ok, shortName(f)+"/handler."+meth, u.ipos(i), "called only where s.handler != nil", meth+" is dispatched to the handler on a path where s.handler may be nil (request before get-session → nil interface call panic)")
+			})
+			counts[meth] += n
+		}
+		// nil edges return an error response
+		for _, b := range f.Blocks {
+			for _, s := range b.Succs {
+				for _, fct := range edgeFacts(b, s) {
+					x, isNil, ok := nilTest(fct)
+					if !ok || accessPath(x) != handlerPath {
+						continue
+					}
+					// on this edge: if a Return is reached before any handler invoke/creation, it must be an error response
+					first := true
+					_, _ = pathSearchAt(s, 0, func(j ssa.Instruction) pathAction {
+						if cc := callOf(j); cc != nil && (cc.IsInvoke() && typeIsNamed(cc.Value.Type(), pkgServer, "requestHandler")) {
+							return pathStop
+						}
+						if g := staticCallee(j); g != nil && g.Name() == "NewHandler" {
+							return pathStop
+						}
+						if r, isR := j.(*ssa.Return); isR && first {
+							construct := shortName(f) + "/" + map[bool]string{true: "uninitialised", false: "already-initialised"}[isNil] + "-reply"
+							c.check(isErrResp(r.Results[0]), construct, u.ipos(r), "answers with an error response", "a request in the wrong protocol state is not answered with an error response")
+							return pathStop
+						}
+						return pathContinue
+					}, nil)
+				}
+			}
+		}
+		// creation + GetSession only on handler == nil
 		n := 0
 		allInstrs(f, func(i ssa.Instruction) {
-			if !isHandlerInvoke(i, meth) {
+			isNew := staticCallee(i) != nil && staticCallee(i).Name() == "NewHandler"
+			if !isNew && !isHandlerInvoke(i, "GetSession") {
 				return
 			}
 			n++
-			cc := callOf(i)
-			ok := accessPath(cc.Value) == handlerPath && knownNonNilPath(handlerPath, i.Block())
-			c.check(ok, shortName(f)+"/handler."+meth, u.ipos(i), "called only where s.handler != nil", meth+" is dispatched to the handler on a path where s.handler may be nil (request before get-session → nil interface call panic)")
-		})
-		if n == 0 {
-			c.bad(shortName(f)+"/handler."+meth, u.pos(f.Pos()), "no dispatch of "+meth+" requests")
-		}
-	}
-	// nil edges return an error response
-	for _, b := range f.Blocks {
-		for _, s := range b.Succs {
-			for _, fct := range edgeFacts(b, s) {
-				x, isNil, ok := nilTest(fct)
-				if !ok || accessPath(x) != handlerPath {
-					continue
+			nilHere := false
+			for _, fct := range factsAt(i.Block()) {
+				if x, isNil, ok := nilTest(fct); ok && isNil && accessPath(x) == handlerPath {
+					nilHere = true
 				}
-				// on this edge: if a Return is reached before any handler invoke/creation, it must be an error response
-				first := true
-				_, _ = pathSearchAt(s, 0, func(j ssa.Instruction) pathAction {
-					if cc := callOf(j); cc != nil && (cc.IsInvoke() && typeIsNamed(cc.Value.Type(), pkgServer, "requestHandler")) {
-						return pathStop
-					}
-					if g := staticCallee(j); g != nil && g.Name() == "NewHandler" {
-						return pathStop
-					}
-					if r, isR := j.(*ssa.Return); isR && first {
-						construct := shortName(f) + "/" + map[bool]string{true: "uninitialised", false: "already-initialised"}[isNil] + "-reply"
-						c.check(isErrResp(r.Results[0]), construct, u.ipos(r), "answers with an error response", "a request in the wrong protocol state is not answered with an error response")
-						return pathStop
-					}
-					return pathContinue
-				}, nil)
 			}
-		}
+			c.check(nilHere, shortName(f)+"/"+calleeLabel(i), u.ipos(i), "only where s.handler == nil", "a second get-session can replace the handler (the first session would leak / protocol violated)")
+		})
+		counts["get-session"] += n
 	}
-	// creation + GetSession only on handler == nil
-	n := 0
-	allInstrs(f, func(i ssa.Instruction) {
-		isNew := staticCallee(i) != nil && staticCallee(i).Name() == "NewHandler"
-		if !isNew && !isHandlerInvoke(i, "GetSession") {
-			return
+	for _, k := range []string{"Encrypt", "Decrypt", "get-session"} {
+		if counts[k] == 0 {
+			c.bad(shortName(root)+"/"+k, u.pos(root.Pos()), "no handling of "+k+" requests found in handleRequest or the streamer methods it calls")
 		}
-		n++
-		nilHere := false
-		for _, fct := range factsAt(i.Block()) {
-			if x, isNil, ok := nilTest(fct); ok && isNil && accessPath(x) == handlerPath {
-				nilHere = true
-			}
-		}
-		c.check(nilHere, shortName(f)+"/"+calleeLabel(i), u.ipos(i), "only where s.handler == nil", "a second get-session can replace the handler (the first session would leak / protocol violated)")
-	})
-	if n == 0 {
-		c.bad(shortName(f)+"/get-session", u.pos(f.Pos()), "no get-session handling found")
 	}
 }
 
